@@ -41,4 +41,21 @@ LineEntries(line) ==
     ELSE IF Typ(b) \in {<<>>, sDomain} THEN {[kind |-> "domain", name |-> ParseName(Exp(b))]}
     ELSE IF Typ(b) = sFull THEN {[kind |-> "full", name |-> ParseName(Exp(b))]}
     ELSE {}
+
+\* A regexp entry of the shape ^literal$ whose literal consists of a-z, 0-9, '-' and escaped dots matches exactly
+\* that (lower-case) name: for names asked in lower case it is a "full" entry.  Other regular expressions are
+\* beyond this model (the scenarios that use this operator ask for nothing that they could match).
+RECURSIVE LitOk(_)
+LitOk(t) == IF t = <<>> THEN TRUE
+            ELSE IF Head(t) = 92 THEN Len(t) >= 2 /\ t[2] = 46 /\ LitOk(SubSeq(t, 3, Len(t)))
+            ELSE (Head(t) \in 97..122 \/ Head(t) \in 48..57 \/ Head(t) = 45) /\ LitOk(Tail(t))
+RECURSIVE UnqRe(_)
+UnqRe(t) == IF t = <<>> THEN <<>>
+            ELSE IF Head(t) = 92 THEN <<t[2]>> \o UnqRe(SubSeq(t, 3, Len(t)))
+            ELSE <<Head(t)>> \o UnqRe(Tail(t))
+RxEntries(line) ==
+    LET b == Trim(CutAt(line, 35))  e == Exp(b) IN
+    IF b # <<>> /\ Typ(b) = sRegexp /\ Len(e) >= 3 /\ e[1] = 94 /\ e[Len(e)] = 36 /\ LitOk(SubSeq(e, 2, Len(e) - 1))
+    THEN {[kind |-> "full", name |-> ParseName(UnqRe(SubSeq(e, 2, Len(e) - 1)))]}
+    ELSE {}
 =============================================================================
